@@ -24,7 +24,7 @@ def J(harness, label, cap_s=None, **params):
 def jobs_c07(tier, seed):
     jobs = []
     if tier == 'quick':
-        pairs, nmax = [POOL[0], POOL[1], POOL[7]], 8
+        pairs, nmax = [POOL[0], POOL[1], POOL[7], POOL[12]], 8
         extra = POOL[2 + seed % 10]
         if extra not in pairs:
             pairs.append(extra)
@@ -45,7 +45,7 @@ def jobs_c07(tier, seed):
 def jobs_c08(tier, seed):
     jobs = []
     if tier == 'quick':
-        pairs, nmax = [POOL[0], POOL[5], POOL[4], POOL[6]], 8
+        pairs, nmax = [POOL[0], POOL[5], POOL[4], POOL[6], POOL[12]], 8
         tpl = [POOL[1], POOL[2]]
         holes = [(a, b, c) for a in range(0, 3) for b in range(1, 3) for c in range(0, 2)]
     else:
@@ -91,6 +91,10 @@ def jobs_c10(tier, seed):
     jobs += [J('c10_pairing', f'slot sequences of length {L}, y two letters', len=L, ylen=2) for L in (range(2, 4) if tier == 'quick' else range(2, 6))]
     for pre, lab in ((['o'] * 17, '17 unclosed openers'), (['c'] * 17, '17 stray closers'), (['o', 'c'] * 9, '18 mixed inert tags')):
         jobs.append(J('c10_pairing', f'{lab} in front of slot sequences of length 3', len=3, prefix=pre))
+    # tags that carry attributes: the name alone decides the pairing (closing tags with words behind the name, values holding the other quote, line breaks)
+    for osuf, csuf in ((" say='\"hi\"' o=\"d's\"", " done k='v'"), ("\n", "\n"), (" a=\"x='y'\"", " end"), (" k", " /"), (" say='\"hi\"'", ""), (" owner=\"the devs'\"", " x")):
+        for L in (((3, 4) if osuf.startswith(' say') else (3,)) if tier == 'quick' else (2, 3, 4, 5)):
+            jobs.append(J('c10_pairing', f'slot sequences of length {L}, tags dressed {osuf!r} {csuf!r}', len=L, open_suffix=osuf, close_suffix=csuf))
     return jobs
 
 
@@ -115,7 +119,8 @@ def jobs_c01_front(tier, seed):
 
 
 def jobs_c01(tier, seed):
-    return props_pipe.c01_pipe_jobs(tier, seed) + props_time.c01_to_value_jobs(tier) + jobs_c01_front(tier, seed)
+    # the exit status of the command is an observation point of C01 as well: the C20 option sets (the harness asserts exit status 0)
+    return props_pipe.c01_pipe_jobs(tier, seed) + props_time.c01_to_value_jobs(tier) + props_cli.c20_jobs(tier, seed) + jobs_c01_front(tier, seed)
 
 
 def jobs_pipe(prop):
@@ -127,6 +132,8 @@ def jobs_pipe(prop):
             jobs += props_pipe.pending_cfg_jobs(tier)
         jobs += cross_jobs(prop, tier, seed)
         jobs += props_pipe.transformed_jobs(prop, tier, seed)
+        if prop != 'C04':
+            jobs += props_pipe.scale_jobs(prop, tier)
         return jobs
     return f
 
@@ -143,6 +150,8 @@ def cross_jobs(prop, tier, seed):
     return [dict(j, label='[decision probe] ' + j['label']) for j in out]
 
 
+C20_COVERS = ('output-is-input-file', 'output-to-file', 'list-mode', 'list-json-mode', 'input-from-file', 'input-from-stdin', 'something-removed',
+              'targets-from-file', 'targets-from-flags', 'no-target-option', 'clean-mode', 'output-to-stdout')
 CROSS_OPTIONAL = ('ready-element-with-opaque-value', 'pending-element-with-opaque-value', 'value-contains-blank-or-eq', 'removed', 'kept')
 
 
@@ -180,7 +189,7 @@ PROPS = {
                     'stack rule of the statement; also: every token exactly once, in order, in the flattened tree.',
         assumptions=COMMON_ASSUME + ['delimiters < and >; names are single ASCII lower-case letters']),
     'C01': dict(
-        jobs=jobs_c01, tv=('front', 'pipe', 'list'), deadline={'quick': 260, 'thorough': 2700},
+        jobs=jobs_c01, tv=('front', 'pipe', 'list'), deadline={'quick': 420, 'thorough': 3000}, cli=True, covers_optional={t: C20_COVERS for t in ('quick', 'thorough')},
         explanation='No feasible path reaches a panic terminator (overflow checks on), a panicking std model call (slice/str index, unwrap, '
                     'replace_range, explicit panic!) or the step budget: tokenize, element_parser::parse on every tag token and parser::parse '
                     'on every valid UTF-8 source of N bytes for the delimiter pool and for symbolic delimiters; tag bodies U(N).',
@@ -227,7 +236,10 @@ PROPS = {
                 explanation='clean on block documents: b blank lines before and a after a removed default-strategy block (a, b = 0..4, every blank line a symbolic '
                             'whitespace hole, indentation holes on every line, two blocks, pending parent, with/without final newline): surviving non-blank '
                             'lines byte-for-byte in order, and exactly a+b-[a>0 and b>0] blank lines between the neighbours.'),
-    'C05': dict(jobs=props_time.c05_jobs, tv=('front', 'pipe', 'time'), assumptions=PIPE_ASSUME + [
+    'C05': dict(jobs=lambda tier, seed: props_time.c05_jobs(tier, seed) + [j for j in props_cli.c20_jobs(tier, seed) if j['label'].startswith('current=')],
+                cli=True, covers_optional={t: C20_COVERS for t in ('quick', 'thorough')},
+                tv=('front', 'pipe', 'time'), assumptions=PIPE_ASSUME + [
+                    'the command-line clause (the instant given as --time-limited-current, in every spelling chrono accepts, is the configured instant; TZ has no influence) is decided by the C20 harness on the time-related option sets, with the stubs listed under C20',
                     'years 1970..2200, seconds 00..59 (the leap second :60 is outside the claim), offsets up to 14:59 in both spellings',
                     'chrono itself is not executed symbolically: what is decided is chiritori\'s own evaluator (attribute read, concatenation with the '
                     'configured offset, format literal, direction and strictness of the comparison, fail-safe returns) over the chrono stub; the stub is '
